@@ -14,6 +14,8 @@ import (
 	"strings"
 
 	"github.com/onheap/eval"
+	"sync/atomic"
+	"time"
 )
 
 type Env map[string]interface{}
@@ -48,13 +50,38 @@ func panicRec(r interface{}) M {
 }
 
 // safely runs f, converting a panic into a "p" record.
-func safely(f func() M) (res M) {
-	defer func() {
-		if r := recover(); r != nil {
-			res = panicRec(r)
-		}
+// watchdog: how long a single call into the library may take before it is recorded as not returning ({"t":"to"}).
+// The call's goroutine cannot be stopped and is abandoned (it may spin for ever); after maxHangs such calls nothing
+// further is called in this run, and the driver stops after the record in progress (see emit).
+var (
+	watchdog = 30 * time.Second
+	hangs    int32
+)
+
+const maxHangs = 5
+
+func safely(f func() M) M {
+	if atomic.LoadInt32(&hangs) >= maxHangs {
+		return M{"t": "to", "v": "not called: the watchdog has fired " + fmt.Sprint(maxHangs) + " times in this run"}
+	}
+	done := make(chan M, 1)
+	go func() {
+		var r M
+		defer func() {
+			if x := recover(); x != nil {
+				r = panicRec(x)
+			}
+			done <- r
+		}()
+		r = f()
 	}()
-	return f()
+	select {
+	case r := <-done:
+		return r
+	case <-time.After(watchdog):
+		atomic.AddInt32(&hangs, 1)
+		return M{"t": "to", "v": "no return within the watchdog time"}
+	}
 }
 
 type compiled struct {
